@@ -54,6 +54,9 @@ def templates(tier):
     # two tensors sharing two contracted ranks: a tensor lacking only part of a flattened tuple is looked up by
     # several coordinates at once
     ts.append(("P8b", E("Z", ["m", "n"], times(T("A", "j", "k", "m"), T("B", "j", "k", "n")))))
+    # element-wise products: the output itself holds the ranks that get flattened / partitioned
+    ts.append(("EW2", E("Z", ["m", "n"], times(T("A", "m", "n"), T("B", "m", "n")))))
+    ts.append(("EW3", E("Z", ["k", "m", "n"], times(T("A", "k", "m", "n"), T("B", "k", "m", "n")))))
     ts.append(("P1ij", rename_vars(ts[0][1], {"m": "i", "n": "j"})))
     if tier != "quick":
         ts.append(("P8", E("Z", ["m", "n"], times(T("A", "j", "k", "m"), T("B", "k", "n"), T("C", "j", "n")))))
